@@ -80,6 +80,7 @@ type simConn struct {
 
 	writes    [][]byte
 	wstall    bool
+	wallow    int // writes let through while stalled (stepw)
 	wfail     error
 	wfailAt   int // fail once this many bytes were written in total (-1 = never)
 	wtotal    int
@@ -155,8 +156,11 @@ func (c *simConn) Write(p []byte) (int, error) {
 	c.inWrite++
 	c.cond.Broadcast()
 	defer func() { c.inWrite-- }()
-	for c.wstall && !c.closed {
+	for c.wstall && c.wallow == 0 && !c.closed {
 		c.cond.Wait()
+	}
+	if c.wstall && c.wallow > 0 {
+		c.wallow--
 	}
 	if c.closed {
 		return 0, &net.OpError{Op: "write", Net: "sim", Err: errors.New("use of closed network connection")}
@@ -438,6 +442,7 @@ type vEngine struct {
 	tornDown int32
 	baseG    int // goroutines of the library alive before this engine existed (leaked by earlier cases)
 	baseDump map[string]int
+	session  context.Context // when set, every call's context is derived from this one (a context that already carries tags)
 }
 
 type vCtxKey string
@@ -604,6 +609,9 @@ func (e *vEngine) settle() {
 func (e *vEngine) ctxFor(spec string) (context.Context, context.CancelFunc) {
 	// spec: tags text or "-" ; context values for tagkeys are attached as key=value pairs "k:v" after '~'
 	ctx := context.Background()
+	if e.session != nil {
+		ctx = e.session
+	}
 	parts := strings.SplitN(spec, "~", 2)
 	if len(parts) == 2 && parts[1] != "" {
 		for _, kvs := range strings.Split(parts[1], "+") {
@@ -858,6 +866,22 @@ func (e *vEngine) op(f []string) {
 		e.conn.wstall = f[1] == "on"
 		e.conn.cond.Broadcast()
 		e.conn.mu.Unlock()
+	case "stepw": // stepw/<n>: let n writes through while the connection stays stalled
+		n, _ := strconv.Atoi(f[1])
+		e.conn.mu.Lock()
+		before := len(e.conn.writes)
+		e.conn.wallow += n
+		e.conn.cond.Broadcast()
+		e.conn.mu.Unlock()
+		e.waitFor("stepw", func() bool {
+			e.conn.mu.Lock()
+			defer e.conn.mu.Unlock()
+			return len(e.conn.writes) >= before+n || e.conn.wallow == 0
+		})
+	case "session": // session/<tagspec>: calls made from now on derive their context from one that carries these tags
+		if t := vTags(f[1]); t != nil {
+			e.session = AddRPCTagsToContext(context.Background(), t)
+		}
 	case "waitinwrite":
 		e.waitFor("inwrite", func() bool {
 			e.conn.mu.Lock()
@@ -893,6 +917,7 @@ func (e *vEngine) op(f []string) {
 		}
 	case "settle":
 		e.settle()
+		e.ev.add("settled")
 	case "sample": // sample/<tag>
 		e.settle()
 		e.ev.add("sample/%s/%s", f[1], e.sample())
@@ -1271,7 +1296,9 @@ func vCallFrameSeq(w []byte) (int64, string, bool) {
 	return q, "", true
 }
 
-func (e *vEngine) feedResponse(seq int64, nonce string, res string) { e.feedResponseC(seq, nonce, res, 0) }
+func (e *vEngine) feedResponse(seq int64, nonce string, res string) {
+	e.feedResponseC(seq, nonce, res, 0)
+}
 
 // feedResponseC: [1, seq, nil, a[i:nonce, b:]] (or the given result text) from the peer; for ctype gzip (1) /
 // msgpackzip (2) the result travels as the compressed msgpack encoding, produced with compress/gzip / msgpackzip
